@@ -291,6 +291,16 @@ func judge(c caseT, e *nbdrive.Endpoint, frames []wsref.Frame, v wsref.Verdict, 
 			}
 		}
 	}
+	for _, o := range e.Obs {
+		// whatever the sequence: the payload of a control frame above 125 bytes is never handed on
+		if o.Kind == nbdrive.ObsCloseRecv {
+			run.Count("close_handler_calls", 1)
+			if len(o.Data) > 123 {
+				violate("c13:"+slug(c.Class)+":over-long-close-frame-delivered", fmt.Sprintf("the close handler was called with code %d and a reason of %d bytes: the payload of a close frame of more than 125 bytes was handed on instead of failing the connection\nnbio: ParseErr=%v connClosed=%d onCloseErr=%v", o.Type, len(o.Data), e.ParseErr, e.ConnClosed, e.OnCloseErr), c, wire, cuts)
+				return false
+			}
+		}
+	}
 	if e.ParseErr != nil {
 		run.Seen("parse_errors", slug(e.ParseErr.Error()))
 		run.Count("failed_by_parse_error", 1)
@@ -861,7 +871,7 @@ func randomCase(i int) caseT {
 	client := rng.Intn(2) == 0
 	comp := rng.Intn(3) == 0
 	masked := !client
-	c := caseT{Class: "random", Index: i, Cfg: nbdrive.Config{Client: client, Compression: comp, MsgLimit: -1}}
+	c := caseT{Class: "random", Index: i, Cfg: nbdrive.Config{Client: client, Compression: comp, MsgLimit: -1, ObserveClose: i%2 == 1}}
 	key := func() [4]byte {
 		var k [4]byte
 		if rng.Intn(10) > 0 {
@@ -965,6 +975,11 @@ func randomCase(i int) caseT {
 		case 4:
 			f := ctl()
 			f.Payload = make([]byte, []int{126, 127, 200, 65536}[rng.Intn(4)])
+			if or := run.Rand("c13-random-overlong", i); or.Intn(3) == 0 {
+				// an over-long close frame whose code and reason are fine in themselves
+				f.Opcode = wsref.OpClose
+				f.Payload = wsref.ClosePayload(1000, strings.Repeat("r", len(f.Payload)-2))
+			}
 			insert(at, f)
 		case 5:
 			// stray continuation between messages
